@@ -86,19 +86,29 @@ func zzComposedObject(metaName, resName string, owner int, foreignUID string) *c
 // pre-state satisfies the invariant every reconcile maintains: a live object
 // controlled by the XR is referenced by the XR.
 func zzSetupComposed(s *kube.Store, n int, foreignUID string, allowForeign bool) []zzPre {
+	return zzSetupComposedN(s, n, n, foreignUID, allowForeign)
+}
+
+// zzSetupComposedN is zzSetupComposed with only the first nSym candidates
+// symbolic; the others exist, are referenced and controlled by the XR.
+func zzSetupComposedN(s *kube.Store, n, nSym int, foreignUID string, allowForeign bool) []zzPre {
 	xr := zzNewXRObject()
 	var pre []zzPre
 	var refs []any
 	for i := 0; i < n; i++ {
 		nm := "pre" + string(rune('0'+i))
 		p := zzPre{name: zzXRName + "-old" + string(rune('a'+i))}
-		p.exists = zz.Bool(nm + ".exists")
-		p.referenced = zz.Bool(nm + ".referenced")
-		owners := 2
-		if allowForeign {
-			owners = 3
+		if i < nSym {
+			p.exists = zz.Bool(nm + ".exists")
+			p.referenced = zz.Bool(nm + ".referenced")
+			owners := 2
+			if allowForeign {
+				owners = 3
+			}
+			p.owner = zz.Choose(nm+".owner", owners)
+		} else {
+			p.exists, p.referenced, p.owner = true, true, zzOwnOurs
 		}
-		p.owner = zz.Choose(nm+".owner", owners)
 		if p.exists {
 			// invariant: controlled by the XR => referenced
 			zz.Assume(p.owner != zzOwnOurs || p.referenced)
